@@ -459,6 +459,47 @@ def gen_site_cases(ck, n):
             "ifst %s 1 %s %s %s" % (",".join("%d>%d" % e for e in edges) or "-", csv(conds),
                                     ",".join("%d=%d" % p for p in idoms) or "-",
                                     ",".join("%s=%d" % (k, v) for k, v in nums.items())))
+        # switch_struct(graph, idoms): rooted graph, random switch nodes, pairwise different numbers, an idoms dict
+        # that is a tree towards smaller numbers (so that common_dom terminates; the node with the smallest number
+        # maps to None; one case in ten drops a key -> KeyError), shuffled insertion order
+        nv = rng.randrange(2, 11)
+        edges = [(rng.randrange(1, i), i) for i in range(2, nv + 1)]
+        for _e in range(rng.randrange(0, nv + 3)):
+            e = (rng.randrange(1, nv + 1), rng.randrange(1, nv + 1))
+            if e not in edges:
+                edges.append(e)
+        rng.shuffle(edges)
+        sws = [i for i in range(1, nv + 1) if rng.random() < 0.5]
+        perm = list(range(1, nv + 1)); rng.shuffle(perm)
+        nums = {str(i): perm[i - 1] for i in range(1, nv + 1)}
+        bynum = sorted(range(1, nv + 1), key=lambda i: perm[i - 1])
+        idoms = [(bynum[0], 0)] + [(bynum[k], bynum[rng.randrange(0, k)]) for k in range(1, nv)]
+        if rng.randrange(10) == 0:
+            idoms.pop(rng.randrange(len(idoms)))
+        rng.shuffle(idoms)
+        add({"op": "swst", "edges": edges, "entry": 1, "switches": sws, "nums": nums, "idoms": idoms},
+            "swst %s 1 %s %s %s" % (",".join("%d>%d" % e for e in edges) or "-", csv(sws),
+                                    ",".join("%d=%d" % p for p in idoms) or "-",
+                                    ",".join("%s=%d" % (k, v) for k, v in nums.items())))
+        # update_attribute_with of a Node / CondBlock / SwitchBlock (the body of the to_update loops) on one node
+        nn = rng.randrange(2, 8)
+        kind = rng.choice("bcs")
+        rn = lambda: rng.randrange(1, nn + 1)          # noqa
+        r0 = lambda: rng.randrange(0, nn + 1)          # noqa
+        latch, fol = r0(), [r0(), r0(), r0()]
+        lnodes = [rn() for _i in range(rng.randrange(0, 6))]
+        tf = [r0(), r0()] if kind == "c" else [0, 0]
+        cs = [rn() for _i in range(rng.randrange(0, 4))] if kind == "s" else []
+        ks = rng.sample(range(1, nn + 1), rng.randrange(0, min(4, nn) + 1)) if kind == "s" else []
+        ntc = [(k, [rng.randrange(0, 9) for _i in range(rng.randrange(0, 3))]) for k in ks]
+        mk = rng.sample(range(1, nn + 1), rng.randrange(0, nn + 1))
+        nmap = [(k, rn()) for k in mk]
+        add({"op": "uattr", "n": nn, "kind": kind, "latch": latch, "follow": fol, "loop_nodes": lnodes, "tf": tf,
+             "cases": cs, "ntc": ntc, "nmap": nmap},
+            "uattr %s %d %s %s %s %s %s %s" % (
+                kind, latch, csv(fol), csv(lnodes), csv(tf), csv(cs),
+                ";".join("%d:%s" % (k, ".".join(map(str, vs))) for k, vs in ntc) or "-",
+                ",".join("%d=%d" % p for p in nmap) or "-"))
     # fixed cases: the witnesses of Props/C22.lean (`derived_sequence_nodes_order_matters`: same graph, two
     # insertion orders of graph.nodes, 2 resp. 3 intervals at the second level; the irreducible triangle that
     # collapses because the edge 2>3 is not recorded; a loop nest)
@@ -571,8 +612,15 @@ def _run(ck, pool, drv):
         "definition node is reachable from the entry — under these the theorems common_dom_ctx_real, "
         "place_declarations_returns_ncd and place_declarations_order_irrelevant_real need no hypothesis about "
         "common_dom (it is proved to return the nearest common dominator); exercised by the correspondence streams "
-        "site-cdom and site-cdomg",
+        "site-cdom and site-cdomg; the fuel of the common_dom model (the Python loop has none) is a hypothesis of the "
+        "form 2*num < fuel in these theorems: the walk takes at most num(a)+num(b) idom steps, so every fuel above "
+        "twice the largest number is enough and the driver uses that",
     ]
+    ck.assumptions.append(
+        "Python object model: assigning an attribute of one node object (self.latch, self.follow[...], self.loop_nodes, "
+        "self.true/false, self.cases, self.node_to_case, x.follow['if'|'switch']) does not change any other node "
+        "object — the frame behind the per-element models of Model/LoopBodies.lean, Model/IfStruct.lean, "
+        "Model/SwitchStruct.lean")
     ck.partial += [
         "whole-pipeline determinism is not a theorem: proved per hash-iteration site (16 remaining sites order-"
         "irrelevant or int-keyed, 5 repaired sites insertion-ordered); the rest of the decompiler is assumed "
@@ -593,10 +641,18 @@ def _run(ck, pool, drv):
         "real if_struct under salted hash orders vs the model) with the enumeration of the set `unresolved` and the order "
         "of the dict idoms as parameters, and proved independent of both when the numbers of the idoms keys are pairwise "
         "different, in particular for compute_rpo numbers (if_struct_order_irrelevant, if_struct_order_irrelevant_rpo; "
-        "if_follow_tie_order_matters shows the hypothesis is needed). NOT proved: the other consumers of the derived "
-        "sequence (loop_type, the part of loop_follow outside loop_follow_order_irrelevant) and switch_struct (its "
-        "follow node is the same max over idoms as in if_struct, its unresolved set is covered by "
-        "independent_updates_order_irrelevant only)",
+        "if_follow_tie_order_matters shows the hypothesis is needed). switch_struct likewise (Model/SwitchStruct.lean, stream site-swst, "
+        "switch_struct_order_irrelevant). NOT proved: the other consumers of the derived sequence (loop_type, the part "
+        "of loop_follow outside loop_follow_order_irrelevant)",
+        "the link site -> theorem is the hand-written label of Order.modelled; sites_covered proves only that every "
+        "scanned site (with its body hash) is in that list. Class 'independent' (split_if_nodes, simplify, dom_lt "
+        "bucket pop, if_struct, switch_struct, identify_structures): if_struct and switch_struct are modelled whole "
+        "and proved; the to_update loops (split_if_nodes, simplify) and the if_unresolved loop of identify_structures "
+        "have their bodies written out (Model/LoopBodies.lean; to_update_order_irrelevant, "
+        "if_unresolved_order_irrelevant) — update_attribute_with of Node/CondBlock/SwitchBlock is tied by stream "
+        "site-uattr, LoopBlock.update_attribute_with (also updates the wrapped CondBlock) is not modelled, the "
+        "identify_structures body is hand-written from the pinned text without a correspondence; the dom_lt bucket "
+        "loop is covered by the C18 model (dom_lt_order_irrelevant)",
     ]
     ck.notes.append("corpus+T+sweep %.0fs; %d distinct-DEX files (%d duplicates skipped)" % (time.time() - t0, len(files), dups))
     if not salted:
